@@ -1,7 +1,7 @@
 //! C20 — dictionary creation counts exactly, keeps the top entries, for any thread count;
 //! save/load round trip; get / get_closest.
 use crate::core::*;
-use crate::gen::len_geo;
+use crate::gen::{self, len_geo};
 use rand::seq::IndexedRandom;
 use rand::Rng as _;
 use serde::{Deserialize, Serialize};
@@ -250,9 +250,16 @@ impl Prop for C20 {
     const ID: &'static str = "C20";
 
     fn lanes(tier: Tier) -> Vec<Lane> {
-        vec![Lane::new("main", tier.pick(1_600, 8_000))
-            .cap(tier.pick(180, 1500))
-            .floor(tier.pick(100, 500))]
+        vec![
+            Lane::new("main", tier.pick(1_600, 8_000))
+                .cap(tier.pick(180, 1500))
+                .floor(tier.pick(100, 500)),
+            // up to 400 lines or up to 2000 words per line, vocabularies of up to 2000 tokens,
+            // and single lines in which one token occurs 66 000 - 70 000 times
+            Lane::new("large", tier.pick(320, 6_400))
+                .cap(tier.pick(180, 1500))
+                .floor(tier.pick(20, 400)),
+        ]
     }
 
     fn rule() -> &'static str {
@@ -287,13 +294,35 @@ impl Prop for C20 {
 
     fn generate(rng: &mut Rng, tier: Tier, _lane: &str) -> Case {
         let big = tier == Tier::Thorough && rng.random_bool(0.3);
+        // `large` lane: the multiplier of the case goes to the number of lines or to the words
+        // per line (token lengths stay as they are), the vocabulary grows up to 2000 tokens
+        let k = gen::scale();
+        gen::set_scale(1);
+        let (lscale, wscale) = match k {
+            1 => (1, 1),
+            // (the repo compiles a regex per line, milliseconds each: at most 400 lines)
+            _ if rng.random_bool(0.5) => (k.min(10), 1),
+            _ => (1, k),
+        };
         // per-case alphabet: few letters make collisions dense
         let pool: &[char] = &['a', 'b', 'c', 'e', 't', 'A', 'ä', 'é', 'f', 'i'];
         let nl = rng.random_range(2..=5);
-        let letters: Vec<char> = pool.choose_multiple(rng, nl).copied().collect();
-        let unstable = rng.random_bool(0.25);
-        let cluster = rng.random_bool(0.3);
-        let vmax = if big { 120 } else { 40 };
+        let mut letters: Vec<char> = pool.choose_multiple(rng, nl).copied().collect();
+        let mut unstable = rng.random_bool(0.25);
+        let mut cluster = rng.random_bool(0.3);
+        // long lines are ascii with few non-ascii separators: the repo's clean() looks characters
+        // up in time linear in the number of runs of equal byte width (quadratic on long
+        // mixed-width lines)
+        let long_lines = wscale > 10 || k == 250;
+        if long_lines {
+            letters.retain(|c| c.is_ascii());
+            if letters.len() < 2 {
+                letters = vec!['a', 'b', 'e'];
+            }
+            unstable = false;
+            cluster = false;
+        }
+        let vmax = if big { 120 } else { 40 * k.min(50) };
         let nv = rng.random_range(3..=vmax);
         let vocab: Vec<String> = (0..nv).map(|_| gen_token(rng, &letters, unstable, cluster)).collect();
         // Zipf-like cumulative weights 1/(rank+1)
@@ -305,20 +334,32 @@ impl Prop for C20 {
         }
         let nlines = match rng.random_range(0..20) {
             0 => rng.random_range(0..=2),
-            _ => rng.random_range(3..=if big { 150 } else { 40 }),
+            _ => rng.random_range(3..=if big { 150 } else { 40 * lscale }),
+        };
+        // one line in which one token occurs 66 000 - 70 000 times
+        let flood_line = if k == 250 && nlines > 0 && rng.random_bool(0.3) {
+            Some(rng.random_range(0..nlines))
+        } else {
+            None
         };
         let markers = rng.random_bool(0.4);
         let crlf = rng.random_bool(0.1);
         let mut lines: Vec<String> = vec![];
         for i in 0..nlines {
-            let nw = len_geo(rng, 3.5, 8);
+            let nw = gen::with_scale(wscale, || len_geo(rng, 3.5, 8));
             let mut ws: Vec<String> = (0..nw)
                 .map(|_| {
                     let x = rng.random::<f64>() * tot;
-                    let k = cum.iter().position(|c| x <= *c).unwrap_or(nv - 1);
+                    let k = cum.partition_point(|c| *c < x).min(nv - 1);
                     vocab[k].clone()
                 })
                 .collect();
+            if flood_line == Some(i) {
+                let w = vocab[rng.random_range(0..nv)].clone();
+                let reps = rng.random_range(66_000..=70_000);
+                let p = rng.random_range(0..=ws.len());
+                ws.splice(p..p, std::iter::repeat_n(w, reps));
+            }
             if markers {
                 let p = rng.random_range(0..=ws.len());
                 ws.insert(p, line_marker(i));
@@ -329,7 +370,11 @@ impl Prop for C20 {
             }
             for (k, w) in ws.iter().enumerate() {
                 if k > 0 {
-                    l.push_str(gen_sep(rng));
+                    if long_lines && ws.len() > 50 && rng.random_range(0..400) != 0 {
+                        l.push(' ');
+                    } else {
+                        l.push_str(gen_sep(rng));
+                    }
                 }
                 l.push_str(w);
             }
@@ -365,6 +410,8 @@ impl Prop for C20 {
             Some(rng.random_range(0..=total_lines + 2))
         };
         let (use_characters, char_grams) = match rng.random_range(0..10) {
+            // (character mode compiles a regex per word in the repo: 0.4 ms per word)
+            _ if flood_line.is_some() => (false, if rng.random_bool(0.5) { 1 } else { 3 }),
             0..=4 => (false, if rng.random_bool(0.5) { 1 } else { 3 }),
             5..=6 => (true, 1),
             _ => (true, 3),
@@ -436,8 +483,11 @@ impl Prop for C20 {
         let h = hash64(&serde_json::to_string(c).unwrap_or_default());
         let s = crate::sched::sched();
         s.ensure_installed();
-        s.set_chaos_all(h, (h % 4) as u8);
-        obs.tag_if(h % 4 != 0, "delay-injection-in-counting-threads");
+        // (corpora of more than 300 lines run without injected delays: one delay per line and
+        // schedule point would cost CPU-minutes)
+        let level = if c.files.iter().map(|f| f.lines().count()).sum::<usize>() > 300 { 0 } else { (h % 4) as u8 };
+        s.set_chaos_all(h, level);
+        obs.tag_if(level != 0, "delay-injection-in-counting-threads");
         check_with_delays(c, obs);
         s.set_chaos_all(0, 0);
     }
